@@ -136,6 +136,8 @@ class Schedules(Suite):
             c = G.seeded(rng, ["G", "G", "G", "F", "N", "O", "R", "E", "Q", "B"], max_len=10, progress_p=0.9, cancel_p=0.25)
             if c.get("progress") and i % 3 == 0:
                 c["cbForm"] = ("object", "lambda", "partial", "method")[(i // 3) % 4]
+            if c.get("progress") and i % 7 == 0 and not c.get("cbRaises") and c.get("writer", "open") == "open":
+                c["cbSleep"] = rng.choice([1, 7, 100, P - 1, P, P + 1, 2 * P + 5, c["D"]])
             out.append(c)
         n2 = 2500 if budget == "quick" else 60000
         for i in range(n2):
@@ -229,6 +231,8 @@ class Schedules(Suite):
             slack = c + P
             if wm == "stalled":
                 slack = max(slack, case["stallUntil"])  # the notification goes out when the peer reads again
+            if case.get("cbSleep"):
+                slack += case["cbSleep"]  # the token is looked at between two reads: not while the caller's own callback runs
             if t > slack and wm != "blocked":
                 return ("cancel-latency", f"token fired at {c}, call ended at {t} > {c}+{P} ({o['outcome']})", {"t<=": c + P})
             if o["outcome"] == "cancelled" and t < c:
